@@ -36,27 +36,27 @@ Qed.
 
 (* Known class of the second finding: a whitelist line re-includes a directory named .xvc / .git that
    the reference walk reaches *)
-Definition whitelists_special gm fixed f35 (ign : option bytes) (ch : list (name * tree)) : bool :=
-  wl_special gm fixed f35 is_special (global_rules common_ignore_patterns) [] (Dir ign ch).
+Definition whitelists_special gm fixed f35 f37 (ign : option bytes) (ch : list (name * tree)) : bool :=
+  wl_special gm fixed f35 f37 is_special (global_rules common_ignore_patterns) [] (Dir ign ch).
 
-Lemma never_enters_xvc_git_lemma gm fixed f35 ign ch x p n r :
-  matcher_finds_last_component gm -> whitelists_special gm fixed f35 ign ch = false ->
-  In x (spec_walk gm fixed f35 common_ignore_patterns ign ch) -> x = p ++ n :: r -> is_special n = false.
+Lemma never_enters_xvc_git_lemma gm fixed f35 f37 ign ch x p n r :
+  matcher_finds_last_component gm -> whitelists_special gm fixed f35 f37 ign ch = false ->
+  In x (spec_walk gm fixed f35 f37 common_ignore_patterns ign ch) -> x = p ++ n :: r -> is_special n = false.
 Proof.
   intros Hm Hw Hin E.
-  apply (never_enters_special_lemma gm fixed f35 common_ignore_patterns ign ch is_special (common_special gm Hm) x p n r Hw Hin E).
+  apply (never_enters_special_lemma gm fixed f35 f37 common_ignore_patterns ign ch is_special (common_special gm Hm) x p n r Hw Hin E).
 Qed.
 
 (* ... and so for every run of walk_parallel (any schedule, any thread count) and for walk_serial *)
-Lemma par_never_enters_xvc_git_lemma gm fixed f35 ign ch nth sched x p n r :
-  wf_tree (Dir ign ch) = true -> local_rules gm fixed ign ch -> (1 <= nth)%nat ->
-  matcher_finds_last_component gm -> whitelists_special gm fixed f35 ign ch = false ->
-  let c := par_walk gm fixed f35 nth common_ignore_patterns ign ch sched in
+Lemma par_never_enters_xvc_git_lemma gm fixed f35 f37 ign ch nth sched x p n r :
+  wf_tree (Dir ign ch) = true -> local_rules gm fixed f37 ign ch -> (1 <= nth)%nat ->
+  matcher_finds_last_component gm -> whitelists_special gm fixed f35 f37 ign ch = false ->
+  let c := par_walk gm fixed f35 f37 nth common_ignore_patterns ign ch sched in
   final c = true -> In x (c_out c) -> x = p ++ n :: r -> is_special n = false.
 Proof.
   intros Hwf Hl Hn Hm Hw c Hf Hin E.
-  destruct (par_walk_deterministic_lemma gm fixed f35 common_ignore_patterns ign ch Hwf Hl nth sched Hn Hf) as [Hp _].
-  apply (never_enters_xvc_git_lemma gm fixed f35 ign ch x p n r Hm Hw); [|exact E].
+  destruct (par_walk_deterministic_lemma gm fixed f35 f37 common_ignore_patterns ign ch Hwf Hl nth sched Hn Hf) as [Hp _].
+  apply (never_enters_xvc_git_lemma gm fixed f35 f37 ign ch x p n r Hm Hw); [|exact E].
   eapply Permutation_in; eassumption.
 Qed.
 
@@ -75,40 +75,40 @@ Proof.
   apply (glob_matches_last_component n0 n' Hp (render p)).
 Qed.
 
-Lemma never_enters_xvc_git_glob_lemma fixed f35 ign ch x p n r :
-  whitelists_special glob_matches fixed f35 ign ch = false ->
-  In x (spec_walk glob_matches fixed f35 common_ignore_patterns ign ch) -> x = p ++ n :: r -> is_special n = false.
-Proof. exact (never_enters_xvc_git_lemma glob_matches fixed f35 ign ch x p n r glob_matches_finds_last_component). Qed.
+Lemma never_enters_xvc_git_glob_lemma fixed f35 f37 ign ch x p n r :
+  whitelists_special glob_matches fixed f35 f37 ign ch = false ->
+  In x (spec_walk glob_matches fixed f35 f37 common_ignore_patterns ign ch) -> x = p ++ n :: r -> is_special n = false.
+Proof. exact (never_enters_xvc_git_lemma glob_matches fixed f35 f37 ign ch x p n r glob_matches_finds_last_component). Qed.
 
-Lemma par_never_enters_xvc_git_glob_lemma fixed f35 ign ch nth sched x p n r :
-  wf_tree (Dir ign ch) = true -> local_rules glob_matches fixed ign ch -> (1 <= nth)%nat ->
-  whitelists_special glob_matches fixed f35 ign ch = false ->
-  let c := par_walk glob_matches fixed f35 nth common_ignore_patterns ign ch sched in
+Lemma par_never_enters_xvc_git_glob_lemma fixed f35 f37 ign ch nth sched x p n r :
+  wf_tree (Dir ign ch) = true -> local_rules glob_matches fixed f37 ign ch -> (1 <= nth)%nat ->
+  whitelists_special glob_matches fixed f35 f37 ign ch = false ->
+  let c := par_walk glob_matches fixed f35 f37 nth common_ignore_patterns ign ch sched in
   final c = true -> In x (c_out c) -> x = p ++ n :: r -> is_special n = false.
 Proof.
-  exact (fun Hwf Hl Hn => par_never_enters_xvc_git_lemma glob_matches fixed f35 ign ch nth sched x p n r Hwf Hl Hn glob_matches_finds_last_component).
+  exact (fun Hwf Hl Hn => par_never_enters_xvc_git_lemma glob_matches fixed f35 f37 ign ch nth sched x p n r Hwf Hl Hn glob_matches_finds_last_component).
 Qed.
 
 (* ---- with the repair of P35 the class is empty and the statement holds for every tree -------------------------- *)
-Lemma whitelist_class_empty_lemma gm fixed ign ch :
-  matcher_finds_last_component gm -> whitelists_special gm fixed true ign ch = false.
+Lemma whitelist_class_empty_lemma gm fixed f37 ign ch :
+  matcher_finds_last_component gm -> whitelists_special gm fixed true f37 ign ch = false.
 Proof.
   intros Hm. unfold whitelists_special.
-  apply (wl_special_false_when_fixed gm fixed true common_ignore_patterns is_special (common_special gm Hm) eq_refl).
+  apply (wl_special_false_when_fixed gm fixed true f37 common_ignore_patterns is_special (common_special gm Hm) eq_refl).
   apply sub_refl.
 Qed.
 
-Lemma never_enters_xvc_git_fixed_lemma fixed ign ch x p n r :
-  In x (spec_walk glob_matches fixed true common_ignore_patterns ign ch) -> x = p ++ n :: r -> is_special n = false.
+Lemma never_enters_xvc_git_fixed_lemma fixed f37 ign ch x p n r :
+  In x (spec_walk glob_matches fixed true f37 common_ignore_patterns ign ch) -> x = p ++ n :: r -> is_special n = false.
 Proof.
   apply never_enters_xvc_git_glob_lemma. apply whitelist_class_empty_lemma. exact glob_matches_finds_last_component.
 Qed.
 
-Lemma par_never_enters_xvc_git_fixed_lemma fixed ign ch nth sched x p n r :
-  wf_tree (Dir ign ch) = true -> local_rules glob_matches fixed ign ch -> (1 <= nth)%nat ->
-  let c := par_walk glob_matches fixed true nth common_ignore_patterns ign ch sched in
+Lemma par_never_enters_xvc_git_fixed_lemma fixed f37 ign ch nth sched x p n r :
+  wf_tree (Dir ign ch) = true -> local_rules glob_matches fixed f37 ign ch -> (1 <= nth)%nat ->
+  let c := par_walk glob_matches fixed true f37 nth common_ignore_patterns ign ch sched in
   final c = true -> In x (c_out c) -> x = p ++ n :: r -> is_special n = false.
 Proof.
-  intros Hwf Hl Hn. apply (par_never_enters_xvc_git_glob_lemma fixed true ign ch nth sched x p n r Hwf Hl Hn).
+  intros Hwf Hl Hn. apply (par_never_enters_xvc_git_glob_lemma fixed true f37 ign ch nth sched x p n r Hwf Hl Hn).
   apply whitelist_class_empty_lemma. exact glob_matches_finds_last_component.
 Qed.
